@@ -118,3 +118,61 @@ for _case in CASES:
         for k, (s, x) in enumerate(zip(in_sigs, inputs)):
             want = [Cx(r_, i_) if i_ is not None else r_ for r_, i_ in x.leaves]
             ctx.prove(f'final.input_values_untouched[{k}]', eq_lists(snapshot_vals(it.getattr(s, 'state')), want))
+
+
+# ------------------------------------------------------------------------------------------------ EigenSolve (sparse, eigenvector seeds): which modes are skipped
+from .solvercontract import FunctionalSolvers, SOLV   # noqa: E402
+from .modcat import mk_module   # noqa: E402
+
+
+@harness(P, 'EigenSolve.sparse_eigvec_sens.mode_skipped_iff_seed_column_zero', targets=['pymoto.modules.linalg:EigenSolve._sparse_eigvec_sens',
+                                                                                      'pymoto.modules.linalg:EigenSolve._sensitivity'], timeout=5000)
+def h_eig_skip(ctx, it):
+    """linearity in the seed requires that only an all-zero seed column contributes nothing: a mode is skipped (no adjoint solve) iff its
+    eigenvector seed column is entirely zero - in particular a CONSTANT non-zero column and a column with entries of both signs are solved"""
+    from .C11 import sym_matrix, sparse_of, install_class, ES
+    from .C03 import set_states
+    n, k = 3, 2
+    install_class(it, True, sparse=True)
+    fs = FunctionalSolvers(ctx, it, hermitian=True, is_complex=False, sparse=True)
+    solves = []
+    orig = fs.slv
+
+    def slv(itp, args, kw):
+        solves.append(id(fs.root(args[0])))
+        return orig(itp, args, kw)
+    for c in ('LinearSolver', 'LDAWrapper'):
+        it.summaries[f'{SOLV}:{c}.solve'] = slv
+    mod = mk_module(it, ES, 2, 2, nmodes=k)
+    ctx.assert_mode = 'assume'
+    ctx.warnings_unobserved = True
+    ctx.safety_on = False
+    ctx.feasible_timeout_ms = 300
+    DCq = 'pymoto.common.dyadcarrier:DyadCarrier.'
+    it.summaries[DCq + '__init__'] = lambda itp, a, kw: None
+    for nm in ('__neg__', '__iadd__', '__isub__', 'real', 'conj', '__pos__'):
+        it.summaries[DCq + nm] = lambda itp, a, kw: a[0]
+    # the skip logic does not depend on the matrices: a concrete pencil keeps the hypotheses (ARPACK contract) trivially satisfiable, so that a
+    # violated count is reported with a model instead of staying undecided
+    from fractions import Fraction
+    A = CArr(np.array([[Fraction(1 if i == j else 0) * (1 + i * i) for j in range(n)] for i in range(n)], dtype=object), 'real')
+    B = CArr(np.array([[Fraction(1 if i == j else 0) for j in range(n)] for i in range(n)], dtype=object), 'real')
+    As, Bs = sparse_of(A), sparse_of(B)
+    set_states(it, mod, [As, Bs])
+    W, Q = it.call(it.getattr(mod, '_response'), [As, Bs])
+    for s, v in zip(it.getattr(mod, 'sig_out'), (W, Q)):
+        it.setattr(s, 'state', v)
+    c = ctx.sym('c', 'real')
+    ctx.assume(c != 0)
+    u = [ctx.sym(f'u{r}', 'real') for r in range(n)]
+    ctx.assume(z3.And(u[0] > 0, u[1] < 0))
+    cases = {'constant_column': [c] * n, 'zero_column': [0] * n, 'mixed_sign_column': u, 'single_entry': [0, c, 0]}
+    for tag, col in cases.items():
+        d = np.empty((n, k), dtype=object)
+        for r in range(n):
+            d[r, 0], d[r, 1] = col[r], 0
+        n0 = len(solves)
+        it.call(it.getattr(mod, '_sensitivity'), [None, CArr(d, 'real')])
+        want = 0 if tag == 'zero_column' else 1
+        ctx.prove(f'{tag}.adjoint_solves', len(solves) - n0 == want)
+        it.call(it.getattr(mod, '_reset'), [])
